@@ -62,10 +62,26 @@ def query(tu, name, extra_flags=()):
     cc = "clang" if tu.endswith(".c") else "clang++"
     cmd = [cc] + tu_flags(tu) + list(extra_flags) + ["-fsyntax-only", "-Wno-everything", "-Xclang", "-ast-dump=json",
                                                      "-Xclang", "-ast-dump-filter=" + name, os.path.join(REPO, tu)]
-    p = subprocess.run(cmd, capture_output=True, text=True)
-    if p.returncode != 0:
-        raise ClangError("clang failed on %s: %s" % (tu, p.stderr[-2000:]))
-    s = p.stdout
+    # development aid only (off unless VF_AST_CACHE names a directory): reuse clang's output while the TU file is
+    # unchanged. NOT sound against edits of headers: never set it for real checks.
+    cache = os.environ.get("VF_AST_CACHE")
+    cpath = None
+    if cache:
+        st = os.stat(os.path.join(REPO, tu))
+        key = hashlib.sha1(("\0".join(cmd) + "|%d|%d" % (st.st_mtime_ns, st.st_size)).encode()).hexdigest()
+        cpath = os.path.join(cache, key + ".json")
+    if cpath and os.path.exists(cpath):
+        s = open(cpath).read()
+    else:
+        p = subprocess.run(cmd, capture_output=True, text=True)
+        if p.returncode != 0:
+            raise ClangError("clang failed on %s: %s" % (tu, p.stderr[-2000:]))
+        s = p.stdout
+        if cpath:
+            os.makedirs(cache, exist_ok=True)
+            with open(cpath + ".tmp%d" % os.getpid(), "w") as f:
+                f.write(s)
+            os.replace(cpath + ".tmp%d" % os.getpid(), cpath)
     dec = json.JSONDecoder()
     i, objs = 0, []
     n = len(s)
